@@ -1,3 +1,7 @@
-import SluVerif.Props.C04
+import SluVerif.Props.C04Global
 #print axioms Slu.schedule_spec
 #print axioms Slu.takePanel_spec
+#print axioms Slu.global_invariant
+#print axioms Slu.global_children_started
+#print axioms Slu.global_parent_unready
+#print axioms Slu.global_owner_unique
